@@ -35,6 +35,8 @@ def run(index, rep):
     rep.guard(ceil, index, rep, flow)
     rep.guard(pin, index, rep, flow)
     rep.guard(r3, index, rep, flow)
+    rep.guard(skip, index, rep)
+    rep.guard(minimum, index, rep)
     rep.guard(toothless, index, rep)
 
 
@@ -365,6 +367,76 @@ def r3(index, rep, flow):
     rep.check(ok, rule, "round2:results-only-reduced", "the post-round-2 adjustment of feed/biofuel is not `clip(x - c, 0, None)` of the same series",
               loc=loc(RUN, rr2))
     rep.require_min(rule, 7)
+
+
+def minimum(index, rep):
+    """the share reserved for people before feed and biofuel: KCALS_DAILY x min(configured minimum, no-feed round's percent fed)/100
+    (same evaluation as C18.CAP - the hand-off is an anchor of both properties)"""
+    from . import c18
+    fn = index.func(PARAMS, "Parameters.calculate_human_consumption_for_min_needs")
+    c18.cap(index, rep, fn, rule="C03.MIN")
+
+
+def skip(index, rep):
+    """when round 2 is not run or is abandoned, the stand-in for its results that round 3 starts from carries zero feed and zero
+    biofuel: nothing but what a solved round found may be charged against human-edible food"""
+    rule = "C03.SKIP"
+    fn = index.func(RUN, "ScenarioRunner.get_interpreted_results_for_round3_if_zero_feed")
+    ras = index.func(RUN, "ScenarioRunner.run_and_analyze_scenario")
+    cls = index.cls(RUN, "ScenarioRunner")
+    sites = [c for c in walk_no_nested(ras) if isinstance(c, ast.Call) and isinstance(c.func, ast.Attribute)
+             and c.func.attr == "get_interpreted_results_for_round3_if_zero_feed"]
+    if len(sites) < 2:
+        raise AnalysisError("run_and_analyze_scenario: the two skip paths (zero feed requested / round 2 abandoned) were not found")
+    params = [a.arg for a in fn.args.args][1:]
+    for k, site in enumerate(sorted(sites, key=lambda c: c.lineno)):
+        def runit(it, site=site):
+            it.classes = {"ScenarioRunner": cls}
+
+            def hook(interp, d, a, kw, node):
+                if d == "Food":
+                    return Obj(None, dict(kw), "food")
+                if d in ("copy.deepcopy", "copy.copy"):
+                    return Obj(None, {}, "standin")
+                if d in ("np.zeros", "np.zeros_like"):
+                    return Rat.const(0)
+                if d == "print":
+                    return None
+                if d and d.split(".")[-1].startswith("in_units") and isinstance(node.func, ast.Attribute):
+                    recv = interp.eval(node.func.value, interp.call_env)
+                    if isinstance(recv, Obj) and recv.name == "food":
+                        return recv  # a unit conversion multiplies by a constant: zero stays zero
+                return NotImplemented
+
+            it.call_hook = hook
+            args = [Obj(None, {}, f"arg{j}") if j == 0 else Rat.atom(NSYM) for j, _ in enumerate(site.args)]
+            for j in range(2, len(site.args)):
+                args[j] = Obj(None, {}, "caller:" + norm_src(site.args[j])[:30])
+            kwargs = {kw.arg: Obj(None, {}, "caller:" + norm_src(kw.value)[:30]) for kw in site.keywords if kw.arg}
+            return it.call_function(fn, args, kwargs, Obj(cls, {}, "self"))
+
+        label = "zero feed requested" if k == len(sites) - 1 else "round 2 abandoned"
+        try:
+            leaves = explore(runit, month_classes=False)
+        except Unsupported as e:
+            rep.violation(rule, f"stand-in[{label}]", "the stand-in for the round-2 results is not built from zero series (it depends on "
+                          f"something the caller passes in: {e})", loc=loc(RUN, site))
+            continue
+        for _, dec, res, it in leaves:
+            if isinstance(res, Abort):
+                continue
+            attrs = res.attrs if isinstance(res, Obj) else {}
+            for attr in ("biofuels_sum_kcals_equivalent", "feed_sum_kcals_equivalent"):
+                v = attrs.get(attr)
+                if v is None and attr.startswith("feed"):
+                    # not touched: the copy keeps the no-feed round's own feed series (zero by construction of that round, C05.ZERO)
+                    rep.ok(rule, f"stand-in[{label}]: {attr} is the no-feed round's (not overwritten)")
+                    continue
+                zero = isinstance(v, Obj) and all(isinstance(v.attrs.get(l), Rat) and v.attrs[l].is_zero() for l in ("kcals", "fat", "protein"))
+                rep.check(zero, rule, f"stand-in[{label}]: {attr} is zero",
+                          f"when {label}, round 3 starts from a stand-in whose {attr} is not the zero series: feed/biofuel that no round "
+                          "found affordable is charged against human-edible food", loc=loc(RUN, site))
+    rep.require_min(rule, 4)
 
 
 def toothless(index, rep):
